@@ -34,6 +34,7 @@ def run(tier: str) -> int:
         for s in S:
             s2 = copy.deepcopy(s)
             s2.real["import_form"] = imp
+            s2.real["plain_refs"] = True
             byname[s.name] = s2
         items = [(byname[h["shape"]], h["hist"]) for h in hs]
         if vi == 0:
